@@ -458,7 +458,7 @@ Section Facts.
 
   Lemma simple_chain_idem cs : simple_chain cs = true -> forall v, run_chain cs (fst (run_chain cs v)) = (fst (run_chain cs v), []).
   Proof.
-    intros Hs v. destruct (is_str v) eqn:Hv; [|rewrite !run_chain_nonstr by assumption; cbn; apply run_chain_nonstr; assumption].
+    intros Hs v. destruct (is_str v) eqn:Hv; [|rewrite (run_chain_nonstr cs v Hv); cbn [fst]; apply run_chain_nonstr; exact Hv].
     destruct v; try discriminate. clear Hv. revert s. induction cs as [|c r IH]; intro s; [reflexivity|].
     cbn [simple_chain] in Hs. destruct c as [a|t|].
     - (* ENUM first, no further ENUM *)
@@ -467,22 +467,22 @@ Section Facts.
         apply attempt_enum_spec in Ha' as (s0 & c & _ & -> & _ & _ & Hin & _).
         destruct (run_chain r (VStr c)) as [w lg] eqn:Hr. cbn [fst].
         destruct (no_enum_run r Hs c w lg Hr) as [Hw|[-> ->]].
-        * apply run_chain_nonstr; exact Hw.
+        * exact (run_chain_nonstr (CEnum a :: r) w Hw).
         * cbn [Repair.run_chain]. unfold Repair.attempt. rewrite Hd. cbn [attempt_enum].
           apply str_in_In in Hin. rewrite Hin. exact Hr.
       + destruct (run_chain r (VStr s)) as [w lg] eqn:Hr. cbn [fst].
         destruct (no_enum_run r Hs s w lg Hr) as [Hw|[-> ->]].
-        * apply run_chain_nonstr; exact Hw.
+        * exact (run_chain_nonstr (CEnum a :: r) w Hw).
         * cbn [Repair.run_chain]. rewrite Ha. exact Hr.
     - destruct (str_eqb t repair_number_type) eqn:Ht.
       + cbn [Repair.run_chain]. destruct (attempt (CType t) (VStr s)) as [[v' e]|] eqn:Ha.
         * pose proof Ha as Ha'. unfold Repair.attempt in Ha'. destruct (negb _); [discriminate|].
           assert (is_str v' = false) as Hv'.
           { apply attempt_type_spec in Ha' as (_ & s0 & _ & _ & [(_ & z & _ & -> & _)|(_ & rr & _ & -> & _)]); reflexivity. }
-          rewrite (run_chain_nonstr r v' Hv'). cbn [fst]. apply run_chain_nonstr; exact Hv'.
+          rewrite (run_chain_nonstr r v' Hv'). cbn [fst]. exact (run_chain_nonstr (CType t :: r) v' Hv').
         * destruct (run_chain r (VStr s)) as [w lg] eqn:Hr. cbn [fst].
           destruct (no_enum_run r Hs s w lg Hr) as [Hw|[-> ->]].
-          -- apply run_chain_nonstr; exact Hw.
+          -- exact (run_chain_nonstr (CType t :: r) w Hw).
           -- cbn [Repair.run_chain]. rewrite Ha. exact Hr.
       + assert (forall x, attempt (CType t) x = None) as Hnone.
         { intro x. unfold Repair.attempt. destruct (negb _); [reflexivity|]. unfold Repair.attempt_type. rewrite Ht. reflexivity. }
